@@ -1,6 +1,6 @@
 #!/usr/bin/env python3
 """Replay a replay file with tracing and print waits/events compactly."""
-import sys, json, subprocess
+import sys, json, subprocess, os
 f = sys.argv[1]
 ev = len(sys.argv) > 2
 r = json.load(open(f))
@@ -8,7 +8,7 @@ print("SCRIPT:", [(t['b'], t.get('cmd')) for t in r['scenario'].get('script', []
 print("PLAN:", r['scenario']['plan'], "PLANS:", len(r['scenario'].get('plans') or []))
 env = dict(r['scenario']['env']); env.pop('binds', None)
 print("ENV:", env)
-t = subprocess.run(['/verif/sim/bin/verifsim', 'replay', f, '--trace'], capture_output=True, text=True, timeout=120).stdout
+t = subprocess.run([os.environ.get('VERIFSIM','/verif/sim/bin/verifsim'), 'replay', f, '--trace'], capture_output=True, text=True, timeout=120).stdout
 i = t.find('[\n')
 print(t[:i] if i >= 0 else t)
 if i >= 0:
